@@ -131,7 +131,8 @@ LastWins(params, r) ==
         Wn == {j \in C : \A h \in C : KeyOf(params[h]) = KeyOf(params[j]) => h <= j}
     IN {<<KeyOf(params[j]), CHOOSE x \in cs[j] : TRUE>> : j \in Wn}
 
-(* Implicit routing: one pair per variable of the PRIMARY http binding     *)
+(* Implicit routing: one pair per variable of the PRIMARY http binding,     *)
+(* whichever pattern (get, put, post, delete, patch or custom) it uses      *)
 PrimaryVars(rl) == rl.http[IF Mutant = "additional_binding" THEN Len(rl.http) ELSE 1]
 ImplicitKey(path) == IF Mutant = "suffixed_key" THEN AttrPath(path) ELSE Dot(path)
 ImplicitPair(v, r) == <<ImplicitKey(v.field), ReadAttr(r, v.field)>>
@@ -144,7 +145,7 @@ Expected(rl, r) == IF rl.explicit THEN LastWins(rl.params, r)
 (* REST: the transport must be able to send when every variable of the primary binding matches strictly *)
 StrictMatch(toks, v) == /\ v # <<>> /\ \A j \in 1..Len(v) : v[j] # NoSeg
                         /\ \E w \in Splits(toks, v) : \A j \in DIdx(toks) : w[j] >= 1
-RestMustSend(rl, r) == \A j \in 1..Len(rl.http[1]) : StrictMatch(rl.http[1][j].toks, r[Dot(rl.http[1][j].field)])
+RestMustSend(rl, r) == ~rl.custom /\ \A j \in 1..Len(rl.http[1]) : StrictMatch(rl.http[1][j].toks, r[Dot(rl.http[1][j].field)])
 
 -----------------------------------------------------------------------------
 (* Header text: a sequence of tokens.  Words and keys stand for themselves, *)
@@ -211,7 +212,9 @@ VarPaths == CASE Pool = "keyword" -> {<<"sub", "class">>}
 ExplicitBindings == IF Pool = "keyword" THEN {<<>>} ELSE {<<>>, <<[field |-> <<"name">>, toks |-> <<DStar>>]>>}
 \* optional additional binding (never used for the header)
 Additional == IF Pool = "keyword" THEN {<<>>} ELSE {<<>>, <<[field |-> <<"other">>, toks |-> <<Star>>]>>}
-EmptyRule == [explicit |-> FALSE, params |-> <<>>, http |-> <<>>]
+\* custom: the primary (and only) binding is written with the `custom` pattern of HttpRule (e.g. kind HEAD) instead of
+\* get/put/post/delete/patch; it is still the primary path template, but the REST transport has no binding for it
+EmptyRule == [explicit |-> FALSE, custom |-> FALSE, params |-> <<>>, http |-> <<>>]
 
 (* request values derived from the rule: empty, matching (plain / needing escaping / with and without a    *)
 (* `**` tail), and broken variants of a matching value                                                     *)
@@ -256,8 +259,8 @@ AddParam(t) == /\ pc = "pcap"
                /\ IF Len(rule.params) + 1 = want THEN ToReq(rule') ELSE pc' = "ptoks" /\ UNCHANGED <<todo, req>>
                /\ cur' = NoCur
                /\ UNCHANGED <<want, calls, pidx, i, hdr, present, text, sent>>
-PickImplicit(n, a) == /\ pc = "ilen"
-                      /\ rule' = [rule EXCEPT !.http = IF a = <<>> THEN <<<<>>>> ELSE <<<<>>, a>>]
+PickImplicit(n, a, c) == /\ pc = "ilen" /\ (c => a = <<>>)
+                      /\ rule' = [rule EXCEPT !.http = IF a = <<>> THEN <<<<>>>> ELSE <<<<>>, a>>, !.custom = c]
                       /\ want' = n /\ pc' = "vars"
                       /\ UNCHANGED <<cur, todo, req, calls, pidx, i, hdr, present, text, sent>>
 AddVar(f, b) == /\ pc = "vars"
@@ -280,7 +283,7 @@ Build == \/ pc = "kind"  /\ \E e \in BOOLEAN : PickKind(e)
          \/ pc = "elen"  /\ \E n \in 0..MaxParams, b \in ExplicitBindings : PickExplicit(n, b)
          \/ pc = "ptoks" /\ \E f \in ParamPaths, b \in Bases \cup {<<>>} : PickField(f, b)
          \/ pc = "pcap"  /\ \E t \in TemplatesOn(cur.toks) : AddParam(t)
-         \/ pc = "ilen"  /\ \E n \in 1..MaxVars, a \in Additional : PickImplicit(n, a)
+         \/ pc = "ilen"  /\ \E n \in 1..MaxVars, a \in Additional, c \in BOOLEAN : PickImplicit(n, a, c)
          \/ pc = "vars"  /\ \E f \in VarPaths, b \in VarToks : AddVar(f, b)
          \/ pc = "req" /\ todo # {} /\ \E v \in ValuesFor(rule, NextField) : SetField(v)
          \/ StartCall
